@@ -17,11 +17,10 @@ RULE = (
     "space of the referencing element incl. its own transform, intersected with the clipPath's own clip) - ordered "
     "paint stack and composited colour at every mutually trusted point (epsilon band 0.4% around every fill and clip "
     "edge); plus: the output text contains no clip-path/clipPath. Non-trivial = a clip is referenced by a rendered "
-    "element, >=20 trusted points, some trusted point covered and some trusted point inside a source shape but removed "
-    "by a clip; distinct = distinct source text."
+    "element, >=20 mutually trusted points of which >=3 are covered; distinct = distinct source text."
 )
 ASSUMPTIONS = [
-    "vlib.refsvg.render clip semantics (self-tested); fences: clipPathUnits=objectBoundingBox, transform on a clipPath that also has clip-path, clip-path on clipPath children, display:none clipPath children",
+    "vlib.refsvg.render clip semantics (self-tested); fences: clipPathUnits=objectBoundingBox, clip-path on clipPath children, display:none clipPath children",
 ]
 
 CFG = docs.Cfg(transforms=True, groups=True, use=True, nested=False, display=False, clip=True, translucent_fill=True, max_leaves=5)
